@@ -146,7 +146,8 @@ class Hist1DAdapter(Adapter):
             st = h["st"]
             stats = Statistics(sum=float(e["sum"]), sum2=float(e["sum2"]), weight=float(e["weight"]),
                                min=self.pe.x(st["mn"]) if st["mn"] != POSINF else np.inf,
-                               max=self.pe.x(st["mx"]) if st["mx"] != NEGINF else -np.inf)
+                               max=self.pe.x(st["mx"]) if st["mx"] != NEGINF else -np.inf,
+                               median=(self._true_median(state["ghost"]) if h["med"] else np.nan))
         try:
             return self.Histogram1D(
                 self.StaticBinning(np.array(self.pe.edges(L))), np.array(freq, dtype=dtype), np.array(err2, dtype=dtype),
@@ -237,12 +238,14 @@ class Hist1DAdapter(Adapter):
 
     def _true_median(self, ghost):
         vals = []
+        ws = set()
         for (p, w, k) in ghost:
             if p == NAN:
                 continue
-            if w != 1:
-                return None
+            ws.add(w)
             vals += [self.pe.x(p)] * k
+        if len(ws) > 1:
+            return None     # unequal weights: no median is defined by the statement
         if not vals:
             return None
         return float(np.median(np.array(vals)))
